@@ -3,6 +3,7 @@
 use crate::rng::Rng;
 
 pub mod client;
+pub mod config;
 pub mod decode;
 pub mod msggen;
 pub mod name;
@@ -12,6 +13,7 @@ pub mod truth;
 pub fn gen(stream: &str, r: &mut Rng, index: u64) -> String {
     match stream {
         "name" => name::gen(r, index),
+        "names" => name::gen_all(r, index),
         "rdata" => decode::gen_rdata(r, index),
         "reader" => decode::gen_reader(r, index),
         "readerx" => decode::gen_readerx(r, index),
@@ -21,6 +23,7 @@ pub fn gen(stream: &str, r: &mut Rng, index: u64) -> String {
         "iter" => decode::gen_iter(r, index),
         "rrset" => decode::gen_rrset(r, index),
         "nameeq" => decode::gen_nameeq(r, index),
+        "cfg" => config::gen_cfg(r, index),
         "truth" => truth::gen_truth(r, index),
         "seekhist" => truth::gen_seekhist(r, index),
         "text" | "cmp" | "query" | "roundtrip" => text::gen(stream, r, index),
@@ -33,7 +36,9 @@ pub fn eval(line: &str) -> String {
     let toks: Vec<&str> = line.split(' ').collect();
     match toks.first().copied() {
         Some("name") => name::eval(&toks),
+        Some("names") => name::eval_all(&toks),
         Some("client") => client::eval(&toks),
+        Some("cfg") => config::eval_cfg(&toks),
         Some("rdata") => decode::eval_rdata(&toks),
         Some("reader") => decode::eval_reader(&toks),
         Some("xmark") => decode::eval_xmark(&toks),
